@@ -347,7 +347,10 @@ def showEv (s : St) : Ev → String
   | .body sys run obs => s!"body {showName s sys} r{run} {showObs s obs}"
   | .bodyEnd sys => s!"bodyend {showName s sys}"
   | .ret v => s!"ret {showOpt v}"
+  | .send pid => s!"send p{pid}"
   | .dropPayload pid => s!"drop p{pid}"
+  | .expect sys obs => s!"ghost expect {showName s sys} {showObs s obs}"
+  | .misclaim sys => s!"ghost misclaim {showName s sys}"
   | .canary sys => s!"canary {showName s sys}"
   | .applied sys => s!"applied {showName s sys}"
   | .abortNoEntity sys => s!"abortnoentity {showName s sys}"
